@@ -403,47 +403,58 @@ func runC15(c *Ctx) {
 			return m
 		}
 		// flow (i): definition on v.member
-		for _, u := range uses {
-			locs, _, err := srv.Definition(useURI, u.line, u.col)
-			if err != nil {
-				c.Report("server-down-on-member-query|"+u.v.Via, fmt.Sprintf("the server died on definition of a member of %s (%s)", u.v.Name, u.v.TypeStr), witness(nil))
-				return
+		phase := ""
+		useShift := 0 // lines inserted above the use file's content by an unsaved edit
+		definitionFlow := func() bool {
+			for _, u := range uses {
+				locs, _, err := srv.Definition(useURI, u.line+useShift, u.col)
+				if err != nil {
+					c.Report("server-down-on-member-query|"+u.v.Via, fmt.Sprintf("the server died on definition of a member of %s (%s)", u.v.Name, u.v.TypeStr), witness(nil))
+					return false
+				}
+				c.Count("member_definition_queries", 1)
+				if u.field == "" {
+					continue // cyclic alias: only liveness
+				}
+				if w.MultiDecl[u.field] {
+					c.Count("dont_care_definition_of_a_field_declared_by_several_classes", 1)
+					continue
+				}
+				fields, _ := w.members(u.v.Class)
+				decl := w.Classes[fields[u.field]]
+				fp := decl.FieldPos[u.field]
+				declFile := decl.File
+				if pf, ok := decl.FieldFile[u.field]; ok {
+					declFile = pf
+				}
+				want := Location{URI: ws.URI(declFile), Range: Range{Position{fp[0], fp[1]}, Position{fp[0], fp[1] + len(u.field)}}}
+				if declFile == w.UseFile {
+					want.Range.Start.Line += useShift
+					want.Range.End.Line += useShift
+				}
+				c.Distinct(fmt.Sprint(files, u.line))
+				inherited := "own"
+				if fields[u.field] != u.v.Class {
+					inherited = "inherited"
+				}
+				cyc := ""
+				if w.Cyclic[u.v.Class] {
+					cyc = "|cyclic-graph"
+				}
+				if len(locs) != 1 || locs[0] != want {
+					c.Report(fmt.Sprintf("member-definition|%s|%s%s%s", u.v.Via, inherited, cyc, phase),
+						fmt.Sprintf("definition of %s%s.%s (type %s, field declared in %s)%s should be %s@%v, got %s", u.v.Name, u.v.Access, u.field, u.v.TypeStr, fields[u.field], phase, declFile, want.Range, fmtLocs(ws, locs)),
+						witness(map[string]interface{}{"var": u.v, "field": u.field, "phase": phase}))
+				}
 			}
-			c.Count("member_definition_queries", 1)
-			if u.field == "" {
-				continue // cyclic alias: only liveness
-			}
-			if w.MultiDecl[u.field] {
-				c.Count("dont_care_definition_of_a_field_declared_by_several_classes", 1)
-				continue
-			}
-			fields, _ := w.members(u.v.Class)
-			decl := w.Classes[fields[u.field]]
-			fp := decl.FieldPos[u.field]
-			declFile := decl.File
-			if pf, ok := decl.FieldFile[u.field]; ok {
-				declFile = pf
-			}
-			want := Location{URI: ws.URI(declFile), Range: Range{Position{fp[0], fp[1]}, Position{fp[0], fp[1] + len(u.field)}}}
-			c.Distinct(fmt.Sprint(files, u.line))
-			inherited := "own"
-			if fields[u.field] != u.v.Class {
-				inherited = "inherited"
-			}
-			cyc := ""
-			if w.Cyclic[u.v.Class] {
-				cyc = "|cyclic-graph"
-			}
-			if len(locs) != 1 || locs[0] != want {
-				c.Report(fmt.Sprintf("member-definition|%s|%s%s", u.v.Via, inherited, cyc),
-					fmt.Sprintf("definition of %s%s.%s (type %s, field declared in %s) should be %s@%v, got %s", u.v.Name, u.v.Access, u.field, u.v.TypeStr, fields[u.field], declFile, want.Range, fmtLocs(ws, locs)),
-					witness(map[string]interface{}{"var": u.v, "field": u.field}))
-			}
+			return true
+		}
+		if !definitionFlow() {
+			return
 		}
 		// flow (ii): typing `v.` then completion with trigger '.'
 		ver := 1
 		base := files[w.UseFile]
-		phase := ""
 		dead := false
 		completionFlow := func() {
 			for _, v := range w.Vars {
@@ -487,7 +498,7 @@ func runC15(c *Ctx) {
 				}
 				for l := range labels {
 					if _, ok := fields[l]; !ok && !extra[l] {
-						if phase != "" && strings.Contains(base, v.Name+v.Access+"."+l+"\n") {
+						if strings.Contains(phase, "deleted") && strings.Contains(base, v.Name+v.Access+"."+l+"\n") {
 							// a member the use file itself reads on this variable is offered as a member seen in code,
 							// whatever the variable's class declares (by design); before the deletion it was a declared field
 							c.Count("dont_care_member_read_in_the_use_file", 1)
@@ -530,6 +541,29 @@ func runC15(c *Ctx) {
 		completionFlow()
 		if dead {
 			return
+		}
+		// an unsaved edit inserts lines at the top of the use file: every typed declaration (and its annotation line) moves down in
+		// the document while the file on disk stays as it was; both flows again on the moved lines
+		if rs := r.Fork(0x7368696674); rs.Chance(1, 2) {
+			useShift = rs.Range(1, 3)
+			base = strings.Repeat(rs.Pick([]string{"-- inserted above\n", "\n", "local inserted = 0\n"}), useShift) + base
+			declEnd += len(base) - len(files[w.UseFile])
+			ver++
+			srv.DidChangeFull(useURI, ver, base)
+			if srv.Fence() != nil {
+				c.Report("server-down-on-annotation-graph", "the server died on an edit of the use file", witness(nil))
+				return
+			}
+			phase = "|after-unsaved-lines-inserted-above"
+			c.Count("use_files_with_lines_inserted_above_by_an_unsaved_edit", 1)
+			if !definitionFlow() {
+				return
+			}
+			completionFlow()
+			if dead {
+				return
+			}
+			phase = ""
 		}
 		// a file that declares classes is deleted on disk (the only event of its batch): what it declared is gone, for the
 		// variables of other classes too (inherited members)
